@@ -238,6 +238,21 @@ def site_of(exc):
     return site, raiser, rfile, via
 
 
+def nested_unit_of(exc):
+    """text of the embedded value being compiled when exc was raised (innermost compile_embedded_value frame on the
+    traceback), or None: errors inside such a nested parse carry file None and positions relative to that text"""
+    tb = exc.__traceback__
+    unit = None
+    while tb is not None:
+        code = tb.tb_frame.f_code
+        if code.co_name == 'compile_embedded_value' and code.co_filename.endswith('_mof_compiler.py'):
+            loc = tb.tb_frame.f_locals
+            m = loc.get('mof')
+            unit = loc.get('mof_str') if isinstance(m, list) else m
+        tb = tb.tb_next
+    return unit if isinstance(unit, str) else None
+
+
 def new_compiler(handle=None, search_paths=None):
     import pywbem
     if handle is None:
@@ -258,7 +273,7 @@ def outcome_of(func):
     except pywbem.MOFCompileError as e:
         site, raiser, rfile, via = site_of(e)
         out = {'exc': type(e).__name__, 'mof': True, 'lineno': e.lineno, 'column': e.column, 'file': e.file,
-               'context': e.context, 'site': site}
+               'context': e.context, 'site': site, 'nested_unit': nested_unit_of(e)}
         if isinstance(e, pywbem.MOFRepositoryError):
             ce = e.cim_error
             out['cim_code'] = ce.status_code if isinstance(ce, pywbem.CIMError) else None
